@@ -97,7 +97,7 @@ SPEC = {
     "eq": eq,
     "spec_check": spec_check,
     "classify": lambda fl: KNOWN_CLASSES.get(fl.get("class")),
-    "nontrivial": lambda r, a: r.startswith("g ") or r.startswith("m "),
+    "nontrivial": lambda r, a: r[:2] in ("g ", "m ", "k ", "s "),
     "rule": "the two examples of the documentation; ~90 fixed strings (test-suite strings, edge cases: empty parts, glued digits, Unicode "
             "digits/blanks, usize::MAX and beyond, repeated qubits, every documented name); every documented name alone in random "
             "letter case; grammar-generated descriptions of 1..6 parts (documented names in random letter case, argument expressions "
@@ -111,7 +111,13 @@ SPEC = {
             "the qubit list; qubit lists in strictly descending order (CX 3 1, CCX 2 1 0) besides random orders; u2/u3/cu2/cu3 alone "
             "with clearly different parameter values (a swapped phi/lambda shows in verif_ops to 1e-4 and in matrix()); object "
             "histories: an earlier description, the current one and the earlier one again built under the SAME name while the first "
-            "objects are alive, all observed afterwards.  (A) implementation vs model: error constructor + payload, width, name "
+            "objects are alive, all observed afterwards.  Stabilizer route: Clifford-only descriptions (every stabilizer gate name; the "
+            "first two-qubit gate with operands ascending / descending neighbours, ascending / descending non-neighbours in turn; 1..4 "
+            "parts, 2..4 qubits): conjugate() of the built composite on all 4^w Pauli strings - (A) vs Q1t.Conj.conjugate on the model's "
+            "composite, (B) M P = +-P' M for M = ordered product of the documented unitaries on the listed qubits, is_stabilizer() = true "
+            "- and one circuit each: X-prepared random basis state, the composite, the inverses of the listed gates added one by one in "
+            "reverse, measure_all, 8 shots on QuStateRepr::stabilizer and on QuStateRepr::vector: every shot must read the input back "
+            "on both ((A): the model carries +-Z_i through its composite and the inverse gates).  (A) implementation vs model: error constructor + payload, width, name "
             "exactly, the sub-gate list of the hook Composite::verif_ops at EVERY width (names and qubit order exactly, parameters to "
             "the 4 decimals of a description), matrix() (width <= 4 quick / 5 thorough) to 1e-9.  (B) width = max index + 1, name, "
             "sub-gate list = the documented gates on the listed qubits in the listed ORDER with the conventional argument values "
